@@ -52,9 +52,16 @@ Definition c17_graph (t : table) : table :=
     end
   end.
 
+(** which text of [_determine_suitable_iri_pattern] the constants were generated from:
+    [["1"]] = with the first test (a common prefix that starts with "_:" gives no stem;
+    [Gen/Consts.v: c_min_iri_skips_bnode_prefix]), [["0"]] = without.  The checks ask, so that
+    finding C09-F3 excuses a label stem only on the text that has the defect. *)
+Definition c17_info (t : table) : table := [[bstr c_min_iri_skips_bnode_prefix]].
+
 Definition entry_c17 (name : str) (t : table) : option table :=
   if str_eqb name (Str "c17_lcp") then Some (map c17_lcp_row t)
   else if str_eqb name (Str "c17_det") then Some (map c17_det_row t)
   else if str_eqb name (Str "c17_stem") then Some (map c17_stem_row t)
   else if str_eqb name (Str "c17_graph") then Some (c17_graph t)
+  else if str_eqb name (Str "c17_info") then Some (c17_info t)
   else None.
